@@ -146,6 +146,41 @@ def check_c12(rep, tier):
 ALPHABET = list("pnbrqkPNBRQK0123456789/-wbacdefghAix ") + ["é", "K", "9", "0"]
 
 
+def lookalikes(c):
+    """Non-ASCII characters a sloppy scanner could take for the ASCII character c: the same low byte (a cast to
+    u8 truncates), the same numeric value in another script, full-width forms, case-folding partners."""
+    import unicodedata
+    out = []
+    o = ord(c)
+    for hi in (0x1, 0x4, 0xF, 0x30, 0xA8, 0xFF, 0x101, 0x1D7):
+        cp = (hi << 8) | o
+        ch = chr(cp)
+        if unicodedata.category(ch)[0] in "LN":                      # letters and numbers only (is_numeric / is_alphabetic)
+            out.append(ch)
+    if c.isdigit():
+        for base in (0x0660, 0x06F0, 0x0966, 0xFF10, 0x1D7CE, 0x2080, 0x2070):   # Arabic-Indic, Persian, Devanagari, full-width, bold, sub/superscripts
+            ch = chr(base + int(c))
+            if unicodedata.category(ch)[0] == "N":
+                out.append(ch)
+        out += {"1": ["¹", "Ⅰ", "①"], "2": ["²", "Ⅱ", "½"], "3": ["³", "Ⅲ"], "8": ["Ⅷ", "⑧", "〸"]}.get(c, [])
+    if c.isalpha():
+        out.append(chr(0xFF21 + ord(c) - 65) if c.isupper() else chr(0xFF41 + ord(c) - 97))      # full-width letter
+        out += {"K": ["K", "К"], "k": ["ĸ", "к"], "B": ["В", "Β"], "b": ["Ь"], "P": ["Р", "Ρ"], "p": ["р", "ρ"], "w": ["ѡ", "ｗ"],
+                "Q": ["Ԛ"], "q": ["ԛ"], "N": ["Ν"], "R": ["Ʀ"], "n": ["ո"], "r": ["г"]}.get(c, [])
+    return [ch for ch in dict.fromkeys(out) if ch != c and ord(ch) > 127]
+
+
+def unicode_mutations(r, fen, limit):
+    """every character of the text replaced by each of its non-ASCII look-alikes: all malformed"""
+    out = []
+    for i, c in enumerate(fen):
+        for ch in lookalikes(c):
+            out.append(fen[:i] + ch + fen[i + 1:])
+    if limit and len(out) > limit:
+        out = r.sample(out, limit)
+    return out
+
+
 def mutations(r, fen, limit):
     out = []
     n = len(fen)
@@ -190,6 +225,7 @@ def check_c17(rep, tier):
         strings.append(core.fen4(f))                      # four fields
         strings.append(" ".join(f.split()[:5]))           # five fields
         strings += mutations(r, f, 130 if tier == "quick" else 0)
+        strings += unicode_mutations(r, f, 40 if tier == "quick" else 0)
     strings = [s for s in dict.fromkeys(strings) if "\n" not in s and "\r" not in s]
     cases = [["new " + s, "obs", "moves c"] for s in strings]
     stats, kinds = Counter(), Counter()
